@@ -192,6 +192,13 @@ func (s *LogStore) verify(report *VerificationReport) {
 	sum := uint64(0)
 	for idx := report.Range.Start; idx < report.Range.End; idx++ {
 		err := s.s.GetLog(idx, &log)
+		if errors.Is(err, raft.ErrLogNotFound) {
+			// We hold the start of the range but not all of it (a store that is
+			// not monotonic can have a hole after a snapshot restore). Like a
+			// range that starts before our first index this is expected.
+			report.Err = ErrRangeMismatch
+			return
+		}
 		if err != nil {
 			report.Err = fmt.Errorf("unable to verify log range %s: %w", report.Range, err)
 			return
